@@ -268,6 +268,11 @@ func (p *program) loadProgram() error {
 		return fmt.Errorf("can't find sizes info for %s", runtime.GOARCH)
 	}
 
+	if _, err := linter.ParseGoVersion(p.goVersion); err != nil {
+		// Context.SetGoVersion panics on malformed versions.
+		return fmt.Errorf("-go: %w", err)
+	}
+
 	p.fset = token.NewFileSet()
 	mode := packages.NeedName |
 		packages.NeedFiles |
